@@ -115,7 +115,8 @@ Proof.
   intros H Hx. cbn [step] in H. unfold get_actor in H. rewrite Hx in H. cbn [bind] in H.
   apply check_acc in H. destruct H as [_ H]. unfold timer_at in H.
   destruct (nth_error (a_timers x) k) as [t|]; [|discriminate].
-  apply check_acc in H. destruct H as [_ H]. destruct (t_st t) eqn:Et; try discriminate.
+  apply check_acc in H. destruct H as [_ H]. apply check_acc in H. destruct H as [_ H].
+  destruct (t_st t) eqn:Et; try discriminate.
   apply check_acc in H. destruct H as [Hg _]. apply Nat.leb_le in Hg. eauto.
 Qed.
 Lemma sleep_arms_deadline s a k d s' x :
